@@ -29,7 +29,7 @@ REQUIRED_COUNTERS = ('conflicts_resolved', 'conflicts_refused', 'resolver_log_en
 
 
 def shards(tier, seed):
-    return split(tier, seed, 4800, 48000, 40, 900)
+    return split(tier, seed, 20000, 800000, 40, 900)
 
 
 def mkstorage(kind, d, FSM):
